@@ -110,13 +110,13 @@ Proof. intros s [->|[->| ->]]; split; reflexivity. Qed.
    (`limit=int?` is not required), and the schema of its type *)
 Theorem export_complete_params : forall a n e, NoDup (param_names e) ->
   let op := export_operation fixed3 ido (snd (build_ep fixed3 ido a (n,e))) in
-  (forall p, In p (e_url e) ->
+  (forall p, In p (e_url e) -> plain_opt (q_ty p) ->
      In {| op_name := q_name p; op_in := "path"; op_required := negb (sty_opt (q_ty p));
            op_schema := export_type fixed3 ido (map_type ido (q_ty p)) |} (o_params op)) /\
-  (forall p, In p (e_query e) ->
+  (forall p, In p (e_query e) -> plain_opt (q_ty p) ->
      In {| op_name := q_name p; op_in := "query"; op_required := negb (sty_opt (q_ty p));
            op_schema := export_type fixed3 ido (map_type ido (q_ty p)) |} (o_params op)) /\
-  (forall p, In p (e_params e) -> sp_body p = false ->
+  (forall p, In p (e_params e) -> sp_body p = false -> plain_opt (sp_ty p) ->
      In {| op_name := sp_name p; op_in := "header"; op_required := negb (sty_opt (sp_ty p));
            op_schema := export_type fixed3 ido (map_type ido (sp_ty p)) |} (o_params op)).
 Proof.
@@ -125,18 +125,18 @@ Proof.
   change (t_params_loop fixed3) with LoopSortedKeys.
   pose proof (map_params_wf ido e) as [Hk _].
   repeat split.
-  - intros p Hin. pose proof (map_params_url e p Hnd Hin) as Hg.
+  - intros p Hin Hpo. pose proof (map_params_url e p Hnd Hin) as Hg.
     pose proof (loop_sorted_reaches _ _ _ Hk Hg) as Hl.
     pose proof (export_param_params fixed3 _ ([], None) _ _ "path"%string Hl eq_refl eq_refl) as H.
-    unfold oparam_of, url_val in H. cbn [wp_ty wp_in] in H. rewrite w_opt_map_type in H. exact H.
-  - intros p Hin. pose proof (map_params_query e p Hnd Hin) as Hg.
+    unfold oparam_of, url_val in H. cbn [wp_ty wp_in] in H. rewrite w_opt_map_type in H by exact Hpo. exact H.
+  - intros p Hin Hpo. pose proof (map_params_query e p Hnd Hin) as Hg.
     pose proof (loop_sorted_reaches _ _ _ Hk Hg) as Hl.
     pose proof (export_param_params fixed3 _ ([], None) _ _ "query"%string Hl eq_refl eq_refl) as H.
-    unfold oparam_of, qry_val in H. cbn [wp_ty wp_in] in H. rewrite w_opt_map_type in H. exact H.
-  - intros p Hin Hb. pose proof (map_params_hdr e p Hnd Hin) as Hg.
+    unfold oparam_of, qry_val in H. cbn [wp_ty wp_in] in H. rewrite w_opt_map_type in H by exact Hpo. exact H.
+  - intros p Hin Hb Hpo. pose proof (map_params_hdr e p Hnd Hin) as Hg.
     pose proof (loop_sorted_reaches _ _ _ Hk Hg) as Hl. unfold hdr_val in Hl. rewrite Hb in Hl.
     pose proof (export_param_params fixed3 _ ([], None) _ _ "header"%string Hl eq_refl eq_refl) as H.
-    unfold oparam_of in H. cbn [wp_ty wp_in] in H. rewrite w_opt_map_type in H. exact H.
+    unfold oparam_of in H. cbn [wp_ty wp_in] in H. rewrite w_opt_map_type in H by exact Hpo. exact H.
 Qed.
 
 (* ------------------------------------------------------------------ request body *)
@@ -189,11 +189,11 @@ Qed.
 (* HEADLINE (endpoints, request body): when exactly one parameter carries ~body (and parameter names are distinct), the
    operation's request body is that parameter: required exactly when it is not optional, with the schema of its type *)
 Theorem export_complete_body : forall a n e p, NoDup (param_names e) ->
-  In p (e_params e) -> sp_body p = true -> (forall q, In q (e_params e) -> sp_body q = true -> q = p) ->
+  In p (e_params e) -> sp_body p = true -> (forall q, In q (e_params e) -> sp_body q = true -> q = p) -> plain_opt (sp_ty p) ->
   o_body (export_operation fixed3 ido (snd (build_ep fixed3 ido a (n,e)))) =
     Some {| ob_required := negb (sty_opt (sp_ty p)); ob_schema := Some (export_type fixed3 ido (map_type ido (sp_ty p))) |}.
 Proof.
-  intros a n e p Hnd Hin Hb Huniq. unfold build_ep. cbn [snd fst]. unfold export_operation. cbn [o_body w_params].
+  intros a n e p Hnd Hin Hb Huniq Hpo. unfold build_ep. cbn [snd fst]. unfold export_operation. cbn [o_body w_params].
   change (t_params_loop fixed3) with LoopSortedKeys.
   pose proof (map_params_wf ido e) as [Hk _].
   pose proof (map_params_hdr e p Hnd Hin) as Hg. unfold hdr_val in Hg. rewrite Hb in Hg.
@@ -205,7 +205,7 @@ Proof.
     apply Permutation_sym. etransitivity; [apply entries_at_perm, Permutation_sym, nsort_perm_self|].
     rewrite entries_at_self by exact Hk. apply Permutation_refl. }
   rewrite (export_param_body fixed3 _ ([], None) (sp_name p) w HLnd Hl eq_refl).
-  - unfold obody_of, w. cbn [wp_ty]. rewrite w_opt_map_type. reflexivity.
+  - unfold obody_of, w. cbn [wp_ty]. rewrite w_opt_map_type by exact Hpo. reflexivity.
   - intros x Hx Hne. cbn [loop_entries] in Hx. apply entries_at_sub in Hx.
     destruct (map_params_entries e x Hx) as [[q [Hq ->]]|[[q [Hq ->]]|[q [Hq ->]]]]; cbn [snd].
     + unfold hdr_val. destruct (sp_body q) eqn:Eq.
